@@ -94,7 +94,7 @@ def main() -> int:
     n = 0
     # a broken tie without a concrete failing input: spend a search budget on fresh inputs,
     # judged by the property's own oracle on the implementation alone
-    if ctx.findings and not any(f.oracle_ok is False for f in ctx.findings) and hasattr(mod, "search"):
+    if (ctx.findings or not proof_ok) and not any(f.oracle_ok is False for f in ctx.findings) and hasattr(mod, "search"):
         try:
             found = mod.search(ctx)
         except Exception as e:
